@@ -143,14 +143,76 @@ def file_db(state):
     raise tlc.TlcError(f"spec state with a main file that is not a database: {f['st']}/{f['c']['k']}")
 
 
+class Suspended(RuntimeError):
+    """a key store coroutine suspended: the replay harness (crash injection at file-system steps) needs mutators that
+    run to their end without yielding"""
+
+
 def run_coro(coro):
     """The store's coroutines never suspend (no await on anything pending): drive them by hand."""
     try:
         coro.send(None)
     except StopIteration as e:
         return e.value
+    except RuntimeError as e:
+        if "no running event loop" in str(e):  # it wants to hand work to the loop: as good as suspending
+            raise Suspended("key store coroutine needs a running event loop") from e
+        raise
     coro.close()
-    raise RuntimeError("key store coroutine suspended: the harness assumes synchronous file access")
+    raise Suspended("key store coroutine suspended")
+
+
+_LOOP = []
+
+
+def run_loop(coro):
+    """run a coroutine to its end on a private event loop (only used in the parent process, before any fork)"""
+    import asyncio
+
+    if not _LOOP:
+        _LOOP.append(asyncio.new_event_loop())
+    return _LOOP[0].run_until_complete(coro)
+
+
+def probe_concurrent(ctx, rep):
+    """Mutators started together (what two pairings completing at once, or two controllers sharing one key file, do):
+    each mutator is one atomic step of KeyStore.tla, so whatever the interleaving of their awaits the outcome must be
+    that of SOME sequential order of them - here they touch different entries, so every order gives the same state."""
+    import asyncio
+
+    for rnd, (ns1, ns2) in enumerate((("A", "A"), ("A", "B"), ("D", "B"), ("A", "B"))):
+        env = Env(scratch_root(ctx.out, f"probe-concurrent-{rnd}"))
+        try:
+            s1, s2 = env.new_store(ns1), env.new_store(ns2)
+            names = [PEER_NAME["p1"], PEER_NAME["p2"], PEER_NAME["p3"]]
+            run_loop(s1.update(names[0], conc_variant(1)))
+
+            async def together():
+                # every mutator touches an entry of its own: every sequential order gives the same state
+                ops = [s1.update(names[1], conc_variant(2)), s2.update(names[2], conc_variant(1))]
+                if rnd == 3:
+                    ops.append(s1.delete(names[0]))
+                return await asyncio.gather(*ops, return_exceptions=True)
+
+            res = run_loop(together())
+            rep.case(("concurrent", rnd, ns1, ns2), nontrivial=True)
+            raised = [type(r).__name__ for r in res if isinstance(r, BaseException)]
+            v1 = dict(run_loop(env.new_store(ns1).get_all()))
+            v2 = dict(run_loop(env.new_store(ns2).get_all()))
+            e1 = {names[0]: conc_variant(1), names[1]: conc_variant(2)}
+            if rnd == 3:
+                del e1[names[0]]
+            e2 = {names[2]: conc_variant(1)}
+            if ns1 == ns2:
+                e1 = e2 = dict(e1, **e2)
+            ok = v1 == e1 and v2 == e2
+            if raised or not ok:
+                rep.violation("keystore:concurrent-mutators:" + ("raise" if raised else "lost-update"),
+                              f"mutators started together on one key file (namespaces {ns1!r} / {ns2!r}) do not amount to any sequential order of them: "
+                              f"raised {raised}; views afterwards {sorted(v1)} / {sorted(v2)}, expected {sorted(e1)} / {sorted(e2)}",
+                              {"part": "concurrent", "round": rnd, "ns": [ns1, ns2]})
+        finally:
+            env.close()
 
 
 # ----------------------------------------------------------------------------- the environment: a real store in a scratch directory
@@ -1046,11 +1108,20 @@ def run(ctx, rep):
     rep.assumptions = [
         "a process death loses data still in Python's write buffer; both outcomes (buffer lost / already flushed) are inspected at the crash point",
         "the kernel applies completed write/rename calls atomically and in order (no power-loss model, no fsync requirement)",
-        "one mutator at a time per file (the coroutines never suspend; no second process writes concurrently)",
+        "no second PROCESS writes concurrently; mutators of one process started together must amount to a sequential order of them (probe_concurrent)",
         "update() may merge into or replace an existing entry (DESIGN Appendix D); the policy is probed and the matching graph replayed",
         "delete() of an absent entry may raise KeyError or return; a mutator through a namespace not yet in the file creates that (possibly empty) key set",
     ]
-    merge = probe_merge(ctx)
+    try:
+        merge = probe_merge(ctx)
+    except Suspended:
+        # the mutators yield to the event loop: what can still be judged is whether mutators started together amount to
+        # a sequential order of them; the step-by-step replay (crash injection) cannot drive such a store
+        probe_concurrent(ctx, rep)
+        if rep.violations:
+            rep.extra["replay"] = {}
+            return
+        raise tlc.TlcError("JsonKeyStore coroutines suspend: the C15 replay harness needs synchronous file access (not a verdict)")
     rep.extra["update_policy"] = "merge" if merge else "replace"
     nworkers = 8
     other = lambda t: (f"{t}-{'replace' if merge else 'merge'}", dict(CONFIGS[t], Merge=not merge))  # noqa: E731  the policy not replayed
@@ -1069,6 +1140,7 @@ def run(ctx, rep):
     for t, frac in plan:
         replay_graph(ctx, rep, t, dict(CONFIGS[t], Merge=merge), nworkers, exhaustive_fraction=frac, g=graphs.pop(t))
     round_trip(ctx, rep, sample=rt_sample)
+    probe_concurrent(ctx, rep)
     if not ctx.quick:
         shim_selftest(ctx, rep, graphs_1p2v)  # DESIGN 3.6: the binding self-test is part of the thorough tier
     rep.exhaustive = True
@@ -1080,6 +1152,11 @@ def run(ctx, rep):
 
 def replay(ctx, rep):
     r = ctx.replay["replay"]
+    if r.get("part") == "concurrent":
+        probe_concurrent(ctx, rep)
+        if not rep.violations:
+            print("replay: mutators started together amount to a sequential order of them now (no violation)")
+        return
     if r.get("part") == "tour":
         env = Env(scratch_root(ctx.out, "replay"))
         found = []
